@@ -34,6 +34,9 @@ MCPropsL == MCPropsS \cup {P(TRUE, "_", "_", FALSE), P(TRUE, "_", "v2", FALSE), 
                            P(FALSE, "_", "_", TRUE), P(TRUE, "v2", "_", TRUE)}
 MCPropsD == {P(FALSE, "_", "_", FALSE), P(TRUE, "v1", "_", FALSE), P(FALSE, "_", "_", TRUE)}
 
+MCFixed1   == {"a"}
+MCPropsP   == {P(FALSE, "_", "_", FALSE)}
+MCSelf1    == {"absent"}
 MCSelf2 == {"absent", "empty"}
 MCSelf3 == {"absent", "empty", "junk"}
 
